@@ -13,6 +13,10 @@
 (*          length <= 2 x nine arrangements of the receiver, the result and  *)
 (*          their shared member, written by json(): shared is not cyclic     *)
 (*   proto  key lists that name a method of the object prototype            *)
+(*   pluckk every key set over {a, 1, 2.5, -3} x every list of <= KeyLen key  *)
+(*          ARGUMENTS of both kinds an object is indexed with: strings and   *)
+(*          numbers (a number names the key that is its decimal text, as in  *)
+(*          o[1]); pluck(x) holds what o[x] reads                            *)
 (*   numb   num() on the string universe of DESIGN.md 3.1                   *)
 (*   numbig num() on digit strings of every length up to 22 around the      *)
 (*          powers of two and ten, with signs, zeros, fractions, exponents   *)
@@ -20,7 +24,7 @@
 (*          outside the documented contract: "neutral value or a runtime    *)
 (*          error, never a crash"                                           *)
 EXTENDS JqValue
-CONSTANTS MaxLen, CaseLen
+CONSTANTS MaxLen, CaseLen, KeyLen
 
 E9 == <<"C3", "A9">>                               \* U+00E9 as its two UTF-8 bytes
 Symbols == {<<"a">>, <<"B">>, <<",">>, E9, <<" ">>}
@@ -89,6 +93,17 @@ ReachCount(tr, o, p, key) ==          \* how many times the container o[key] is 
      \/ LeavesOf(tr)[i] = "p" /\ key \in DOMAIN p /\ key \in DOMAIN o
      \/ LeavesOf(tr)[i] = "od" /\ key = KD /\ KD \in DOMAIN o
      \/ LeavesOf(tr)[i] = "pd" /\ key = KD /\ KD \in DOMAIN p /\ KD \in DOMAIN o})
+\* ---- family "pluckk": key arguments by kind.  An object is indexed with strings AND numbers: a number names the key
+\* that is its decimal text (o[1] and o["1"] are the same member, o[10/4] is o["2.5"]); pluck takes its keys the same way.
+KeysK == {Chars("a"), Chars("1"), Chars("2.5"), Chars("-3")}
+ValOfK(key) == CASE key = Chars("a") -> I(1) [] key = Chars("1") -> S("one") [] key = Chars("2.5") -> VArr(1) [] key = Chars("-3") -> VBool(TRUE)
+ObjOverK(ks) == [key \in ks |-> ValOfK(key)]
+KeyArgs == <<S("a"), S("1"), I(1), S("2.5"), Num(5, 2, 0), I(-3), I(0), I(7), Num(1, 4, 0), S("zz")>>
+ArgKey(v) == IF v.k = "num" THEN NumText(v) ELSE v.s                \* the key an index / pluck argument names
+ArgKeys(args) == [i \in 1..Len(args) |-> ArgKey(args[i])]
+PluckArgs(o, args) == Pluck(o, ArgKeys(args))
+IndexObj(o, v) == IF ArgKey(v) \in DOMAIN o THEN o[ArgKey(v)] ELSE VNull       \* what o[v] reads
+KeyOrderK == SetSeq(KeysK \cup Range(ArgKeys(KeyArgs)))
 ProtoKeys == <<Chars("length"), Chars("pluck")>>
 ProtoLists == << <<ProtoKeys[1]>>, <<ProtoKeys[2]>>, <<KA, ProtoKeys[1]>>, <<ProtoKeys[1], KB, ProtoKeys[2]>> >>
 
@@ -135,13 +150,14 @@ Receivers == <<I(5), Num(-5, 2, 0), S("aB"), S(""), VBool(TRUE), VNull, VUnset, 
 ArgLists == << <<>>, <<S(",")>>, <<S("")>>, <<I(1)>>, <<S("a"), S("b")>>, <<S("a"), I(2), VNull>>, <<VNull>>, <<VArr(0)>>, <<VBool(TRUE)>>, <<VObj(1)>>,
                <<VUnset>>, <<VRegex(Chars("x"))>>, <<VFn>>, <<I(5), I(6)>> >>
 AllStr(args) == \A i \in 1..Len(args) : args[i].k = "str"
+AllKeys(args) == \A i \in 1..Len(args) : args[i].k \in {"str", "num"}
 \* is the call inside the contract the statement documents?
 Documented(m, recv, args) ==
   CASE m = "length" -> recv.k \in {"str", "obj", "arr"} /\ args = <<>>
     [] m \in {"upper", "lower"} -> recv.k = "str" /\ args = <<>>
     [] m = "split" -> recv.k = "str" /\ Len(args) = 1 /\ args[1].k = "str"
     [] m \in {"floor", "ceil", "round"} -> recv.k = "num" /\ args = <<>>
-    [] m = "pluck" -> recv.k = "obj" /\ AllStr(args)
+    [] m = "pluck" -> recv.k = "obj" /\ AllKeys(args)
     [] m = "num" -> Len(args) = 1 /\ args[1].k = "str"
     [] m = "json" -> Len(args) = 1 /\ args[1].k \in {"num", "str", "bool", "null", "arr", "obj"}
 
@@ -159,6 +175,7 @@ Init ==
      \/ fam = "num" /\ a \in 1..Len(NumDomain)
      \/ fam = "pluck" /\ a \in SUBSET Keys
      \/ fam = "pluckj" /\ a \in SUBSET KeysJ
+     \/ fam = "pluckk" /\ a \in SUBSET KeysK
      \/ fam = "proto" /\ a \in 1..Len(ProtoLists)
      \/ fam = "numb" /\ a \in 1..Len(NumbStrings)
      \/ fam = "call" /\ a \in 1..(Len(Methods) + Len(Builtins))
@@ -167,6 +184,7 @@ Next ==
   /\ CASE fam = "split" -> b' \in SymSeqs(2)
        [] fam = "pluck" -> b' \in SeqsUpTo(Keys, 3)
        [] fam = "pluckj" -> b' \in SeqsUpTo(KeysJ, 2) \X (1..Len(Arrangements))
+       [] fam = "pluckk" -> b' \in SeqsUpTo(Range(KeyArgs), KeyLen)
        [] fam = "pluckw" -> b' \in SeqsUpTo(Keys, 2) \X {"copy", "recv"} \X Keys \X MemberWrites     \* <<key list, written object, written key, write>>
        [] fam = "numbig" -> b' \in 1..(NBigDecor + Len(BadDecor))
        [] fam = "call" -> b' \in (IF a <= Len(Methods) THEN 1..Len(Receivers) ELSE {0}) \X (1..Len(ArgLists))
@@ -289,6 +307,25 @@ PluckJsonLaws(ks, keys, ai) ==
   /\ tr = JLeaf("p") => u.pairs = PairsFrom(Pluck(o, keys), KeyOrderJ)
   /\ tr = JLeaf("o") => Len(u.pairs) = Cardinality(ks)
 
+\* --- key arguments of both kinds
+PluckKeyLaws(ks, args) ==
+  LET o == ObjOverK(ks)
+      r == PluckH([i \in {1} |-> o], 1, ArgKeys(args))
+      p == r.heap[r.id]
+  IN
+  /\ p = PluckArgs(o, args) /\ r.heap[1] = o
+  /\ DOMAIN p = Range(ArgKeys(args))
+  /\ \A i \in 1..Len(args) : p[ArgKey(args[i])] = IndexObj(o, args[i])            \* pluck(x)[x] is what o[x] reads
+  /\ \A i \in 1..Len(args) : IndexObj(p, args[i]) = IndexObj(o, args[i])
+  /\ p = PluckArgs(o, [i \in 1..Len(args) |-> VStr(ArgKey(args[i]))])              \* a number and its text are the same key
+  /\ \A i \in 1..Len(args) : ArgKey(args[i]) \in ks => p[ArgKey(args[i])] = ValOfK(ArgKey(args[i])) /\ p[ArgKey(args[i])] # VNull
+  /\ \A i \in 1..Len(args) : ArgKey(args[i]) \notin ks => p[ArgKey(args[i])] = VNull
+KeyAnchors ==
+  /\ ArgKey(I(1)) = Chars("1") /\ ArgKey(Num(5, 2, 0)) = Chars("2.5") /\ ArgKey(I(-3)) = Chars("-3") /\ ArgKey(I(0)) = Chars("0")
+  /\ ArgKey(Num(1, 4, 0)) = Chars("0.25") /\ ArgKey(S("1")) = ArgKey(I(1)) /\ ArgKey(S("a")) = Chars("a")
+  /\ Cardinality(Range(ArgKeys(KeyArgs))) = 8
+  /\ PluckArgs(ObjOverK(KeysK), <<I(1), Num(5, 2, 0), I(7)>>) = (Chars("1") :> S("one")) @@ (Chars("2.5") :> VArr(1)) @@ (Chars("7") :> VNull)
+
 NumbLaws(i) ==
   LET s == Chars(NumbStrings[i])  r == NumBuiltin(VStr(s)) IN
   /\ r.k \in {"num", "null"}
@@ -363,6 +400,7 @@ Laws == done =>
     [] fam = "num" -> NumLaws(NumDomain[a])
     [] fam = "pluck" -> PluckLaws(a, b)
     [] fam = "pluckj" -> PluckJsonLaws(a, b[1], b[2])
+    [] fam = "pluckk" -> PluckKeyLaws(a, b)
     [] fam = "numb" -> NumbLaws(a)
     [] fam = "pluckw" -> PluckWriteLaws(a, b[1], b[2], b[3], b[4])
     [] fam = "numbig" -> NumBigLaws(a, b)
@@ -371,6 +409,7 @@ ASSUME NumAnchors
 ASSUME NumbAnchors
 ASSUME CaseTableLaws
 ASSUME BigBaseLaws
+ASSUME KeyAnchors
 
 \* ======================================================================
 \* Vectors
@@ -393,6 +432,10 @@ Vec == done =>
          LET o == ObjOverJ(a)  p == Pluck(o, b[1]) IN
          Emit([fam |-> fam, obj |-> PairsFrom(o, KeyOrderJ), keys |-> b[1], res |-> PairsFrom(p, KeyOrderJ),
                shape |-> Arrangements[b[2]], want |-> Unfold(Arrangements[b[2]], o, p)])
+    [] fam = "pluckk" ->
+         LET o == ObjOverK(a)  p == PluckArgs(o, b) IN
+         Emit([fam |-> fam, obj |-> PairsFrom(o, KeyOrderK), args |-> b, keys |-> ArgKeys(b), res |-> PairsFrom(p, KeyOrderK),
+               idx |-> [i \in 1..Len(b) |-> IndexObj(o, b[i])]])
     [] fam = "proto" ->
          \* the object {a: 1}; keys that name a prototype method are absent keys: null
          LET o == ObjOver({KA})  keys == ProtoLists[a]  p == Pluck(o, keys) IN
